@@ -53,16 +53,67 @@ func allInstrs(fn *ssa.Function, withAnon bool, visit func(f *ssa.Function, b *s
 	}
 }
 
-// callsIn returns the call instructions in fn whose callee name satisfies pred.
+// callsIn returns the call instructions in fn whose callee name satisfies pred. A call
+// through an interface matches by the interface method's name, or when EVERY gleece
+// implementation of that method satisfies pred (must-style: the call certainly is one).
 func callsIn(fn *ssa.Function, withAnon bool, pred func(name string) bool) []ssa.CallInstruction {
 	var out []ssa.CallInstruction
 	allInstrs(fn, withAnon, func(_ *ssa.Function, _ *ssa.BasicBlock, _ int, ins ssa.Instruction) {
 		if c, ok := ins.(ssa.CallInstruction); ok {
 			if pred(calleeName(c)) {
 				out = append(out, c)
+				return
+			}
+			if impls := implNames(c); len(impls) > 0 {
+				all := true
+				for _, n := range impls {
+					if !pred(n) {
+						all = false
+					}
+				}
+				if all {
+					out = append(out, c)
+				}
 			}
 		}
 	})
+	return out
+}
+
+// implIndex: the named non-interface types of the analysed packages (class-hierarchy
+// resolution of interface calls). Set once by loadWorld.
+var implIndex []*types.Named
+
+var implCache = map[*types.Func][]string{}
+
+// implNames: for an interface (invoke-mode) call, the short names of the concrete gleece
+// methods it may dispatch to (CHA over the analysed packages); nil for static calls.
+func implNames(c ssa.CallInstruction) []string {
+	com := c.Common()
+	if !com.IsInvoke() {
+		return nil
+	}
+	if r, ok := implCache[com.Method]; ok {
+		return r
+	}
+	iface, _ := com.Value.Type().Underlying().(*types.Interface)
+	var out []string
+	if iface != nil {
+		for _, nt := range implIndex {
+			for _, t := range []types.Type{nt, types.NewPointer(nt)} {
+				if !types.Implements(t, iface) {
+					continue
+				}
+				obj, _, _ := types.LookupFieldOrMethod(t, true, com.Method.Pkg(), com.Method.Name())
+				if f, ok := obj.(*types.Func); ok {
+					out = append(out, short(f.FullName()))
+				}
+				break
+			}
+		}
+	}
+	sort.Strings(out)
+	implCache[com.Method] = out
 	return out
 }
 
@@ -946,13 +997,26 @@ func (w *World) fieldStores(fld *types.Var) []*ssa.Store {
 
 // callersOf returns every call instruction in gleece (all SSA functions) to a callee
 // matching pred.
+// callersOf: who-style. A call through an interface counts as a call of every gleece
+// implementation it may dispatch to (CHA): a second way in must not be overlooked.
 func (w *World) callersOf(pred func(string) bool) []ssa.CallInstruction {
 	var out []ssa.CallInstruction
 	for _, fn := range w.SSAFuncs {
 		for _, b := range fn.Blocks {
 			for _, ins := range b.Instrs {
-				if c, ok := ins.(ssa.CallInstruction); ok && pred(calleeName(c)) {
+				c, ok := ins.(ssa.CallInstruction)
+				if !ok {
+					continue
+				}
+				if pred(calleeName(c)) {
 					out = append(out, c)
+					continue
+				}
+				for _, n := range implNames(c) {
+					if pred(n) {
+						out = append(out, c)
+						break
+					}
 				}
 			}
 		}
